@@ -91,6 +91,15 @@ func judge(sc *Scenario, x *vrt.Execution) []verdict {
 			}
 		case "tokend":
 			delete(inCommand, e.T)
+		case "enter:runServiceCommand": // a context hook command (up, before, after) is a command too
+			if tok := svcToken(e.Arg); !strings.HasPrefix(tok, "down:") {
+				inCommand[e.T] = tok
+				if cancelReturned {
+					add("C12", "C12:command-after-cancel-returned", fmt.Sprintf("context hook command %q started after a Cancel call had returned", tok))
+				}
+			}
+		case "exit:runServiceCommand":
+			delete(inCommand, e.T)
 		case "cancel.ret":
 			cancelReturned = true
 			for _, c := range inCommand {
